@@ -230,7 +230,7 @@ def run(tier):
     sims, beh = [], 0
     for cfg, classes in (("Seq_sim", ["SE3", "Twist3"]), ("Seq_sim_rot", ["SO3", "UnitQuaternion"]),
                          ("Seq_sim_planar", ["SE2", "Twist2"]), ("Seq_sim_planar_rot", ["SO2"])):
-        rs = run_tlc("MC_Seq", cfg, workers=4, simulate=max(1, nb // 4), depth=40, seed_=common.seed() + 9, timeout=900)
+        rs = run_tlc("MC_Seq", cfg, workers=1, simulate=nb, depth=40, seed_=common.seed() + 9, timeout=900)
         if len(rs.json) < nb // 2:
             raise MachineryError("sequence machine produced %d behaviours" % len(rs.json))
         sims.append(rs)
